@@ -115,8 +115,12 @@ def run(ctx: core.Ctx):
         LOG.clear()
         NAMES = ["d", "c", "e"]
         y, w = LArr(np.arange(n, dtype="float64") + 1, "y"), LArr(np.ones(n), "w")
-        with np.errstate(all="ignore"):
-            f(y, 10.0, w)
+        try:
+            with np.errstate(all="ignore"):
+                f(y, 10.0, w)
+        except IndexError as e:
+            ctx.fail("ws2d", dict(n=n), repr(e), "no index outside the array bounds for n >= 2", note="the source itself raises IndexError under the interpreter")
+            continue
         ctx.case(("ws2d", n), sample=dict(kernel="ws2d", n=n, accesses=len(LOG)))
         ctx.count("ws2d source traces")
         check_log(ctx, "ws2d", dict(n=n), list(LOG), parse_trace(a), ["y", "w", "z", "d", "c", "e"])
